@@ -40,7 +40,7 @@ GROUPS = [[1, 2], [3], [4, 5]]
 
 def budget(tier: str) -> dict[str, Any]:
     if tier == "quick":
-        return {"shards": 8, "cases": 250}
+        return {"shards": 8, "cases": 2000}
     return {"shards": 32, "cases": 5000, "hashseeds": [0, 1, 2, 3]}
 
 
